@@ -167,3 +167,48 @@ func TestReplay(t *testing.T) {
 		}
 	}
 }
+
+// TestOperatorNests: the exhaustive operator-nest enumeration (phpgen/opnest.go). The formatter
+// writes operators with its own spacing, so every operator inside every operand position of every
+// other operator (and every triple inside the fusion families, e.g. sign over power over
+// pre-decrement) is formatted from its minimal and from its spaced rendering: both must give the
+// same text, which must parse back to the same tree and be a fixed point.
+func TestOperatorNests(t *testing.T) {
+	for _, v := range []px.Ver{px.V74, px.V56} {
+		failed := false
+		progs.EachNest(v, false, func(name string, build func() *progs.NestProgram) bool {
+			var first []byte
+			for _, kind := range []phpgen.PolicyKind{phpgen.PolicyMinimal, phpgen.PolicySpace} {
+				np := build()
+				if np == nil {
+					return true
+				}
+				src := append([]byte{}, np.G.Render(np.Root, phpgen.Policy{Kind: kind}).Src...)
+				harness.Class("operator-nest")
+				cl, m, f := checkOne(src, v)
+				if cl != "" {
+					harness.Failf(t, "operator-nests/"+cl, src, meta(v), "%s: %s\nsource: %q", name, m, src)
+					failed = true
+					return false
+				}
+				if f == nil {
+					harness.Failf(t, "operator-nests/valid-rejected", src, meta(v), "[%s] %s: enumerated expression rejected\nsource: %q", v, name, src)
+					failed = true
+					return false
+				}
+				if first == nil {
+					first = f
+				} else if !bytes.Equal(first, f) {
+					harness.Failf(t, "operator-nests/not-canonical", src, meta(v), "[%s] %s: the minimal and the spaced rendering format differently: %q vs %q\nsource: %q", v, name, first, f, src)
+					failed = true
+					return false
+				}
+				harness.NonTrivial([]byte(v.String()+name+fmt.Sprint(kind)), fmt.Sprintf("[%s] %s: %q -> %q", v, name, src, f))
+			}
+			return true
+		})
+		if failed {
+			return
+		}
+	}
+}
